@@ -342,6 +342,9 @@ def prior_calls(rng, c, obj, counters, k=(0, 3)):
             # for the initial-value entry points only arguments that cannot be read as a valid (theta, x0) vector in any accepted form
             # (pygom accepts full, target-only and states-only lengths): empty, longer than every form, or not numeric
             bad_arg = rng.choice([lambda: "not a vector", lambda: np.array([]), lambda: np.array([7.0] * (c.nP + c.nS + rng.randint(1, 4)))])()
+            if c.target_param is not None and len(c.target_param) < c.nP and c.target_state is None and rng.random() < 0.6:
+                # the full (all parameters, all states) vector on an object that estimates only some of the parameters: refused
+                bad_arg = np.array(list(c.theta) + [float(v) * 1.3 + 0.2 for v in c.x0], dtype=float)
         try:
             with contextlib.redirect_stdout(io.StringIO()), np.errstate(all="ignore"):
                 getattr(obj, entry)(bad_arg)
